@@ -174,11 +174,19 @@ def load (dst src : Nat) (off : Int) (fmt : Fmt) (long : Option Bool) : GenM Uni
     emit ⟨Consts.op_LSH + longBit lg, dst, 0, 0, shift⟩
     emit ⟨Consts.op_ARSH + longBit lg, dst, 0, 0, shift⟩
 
-/-- `Binary.calculate`, the right operand: an immediate for a small constant, otherwise computed into any
-register (`calcR` = `self.right.calculate(None, long)`), used, and released -/
+/-- the immediates `Binary.calculate` refuses with an AssembleError: a constant shift count outside `[0, width)` of the
+operation as it is generated (32 or 64 bit), a constant zero divisor — the kernel would not load either -/
+def badImm (op : BinOp) (v : Int) (long' : Bool) : Bool :=
+  match op with
+  | .lsh | .rsh | .arsh => !(decide (0 ≤ v) && decide (v < if long' then 64 else 32))
+  | .div | .mod => v == 0
+  | _ => false
+
+/-- `Binary.calculate`, the right operand: an immediate for a small constant (refused if `badImm`), otherwise computed
+into any register (`calcR` = `self.right.calculate(None, long)`), used, and released -/
 def binRight (op : BinOp) (small : Option Int) (calcR : GenM CalcRes) (d : Nat) (long' : Bool) : GenM Unit :=
   match small with
-  | some v => emit ⟨op.opcode + longBit long', d, 0, 0, v⟩
+  | some v => if badImm op v long' then fail .asm else emit ⟨op.opcode + longBit long', d, 0, 0, v⟩
   | none => do
     let rres ← calcR
     emit ⟨op.opcode + Consts.op_REG + longBit long', d, rres.reg, 0, 0⟩
